@@ -12,6 +12,7 @@ R-C01-5  guard discipline (shared instances of C08's rules): error suppression s
          switched off again on every exit, so checks are never off without the user having asked for it
 """
 import ast
+import re
 
 from ..hints import NONE, pre_assume, replay, Valuer, all_cases, paths_to, NeedCase, Undecidable, Contradiction
 from ..loader import norm, AnalysisError, parents
@@ -219,7 +220,9 @@ def check(repo, rep, tier):
             if fi is None:
                 raise AnalysisError("%s.%s not found" % (mod, fn))
             app = [c for c in ast.walk(fi.node) if isinstance(c, ast.Call) and norm(c.func) == "%s.append" % lst]
-            if len(app) == 1 and norm(app[0].args[0]) == fi.params[0]:
+            stored = norm(app[0].args[0]) if len(app) == 1 else ""
+            if len(app) == 1 and (stored == fi.params[0] or re.match(r"^%s %% \w*(modulus|snarkjsp)\w*(\(\))?$" % re.escape(fi.params[0]), stored)):
+                # the value itself, or its canonical representative modulo the field prime (congruent: the same constraints hold)
                 r4.ok(fi.loc(), fi.fq, norm(app[0]))
             else:
                 r4.violation(fi.loc(), fi.fq, "; ".join(norm(a) for a in app), "the value recorded for the new variable is not "
